@@ -26,7 +26,7 @@ Paths == [p \in {"@/st/a", "@/st/b", "@/st/sub/c", "@/st2/d", "@/stx", "st/a", "
               [] p = "@/s" -> P(TRUE, <<"@", "s">>, "")
               [] OTHER -> P(TRUE, <<"@", "st2">>, "st2")]
 Base == [tool |-> "shell", ins |-> <<"a">>, outs |-> <<"o">>, sigx |-> 1, aood |-> FALSE, ami |-> FALSE, amo |-> FALSE,
-         tag |-> "c", reads |-> <<>>, depsok |-> TRUE, failif |-> "", failpt |-> "before", expected |-> <<>>, roots |-> <<>>]
+         tag |-> "c", keep |-> FALSE, reads |-> <<>>, depsok |-> TRUE, failif |-> "", failpt |-> "before", expected |-> <<>>, roots |-> <<>>]
 Stale(exp, roots) == [Base EXCEPT !.tool = "stale", !.ins = <<>>, !.outs = <<"<rm>">>, !.sigx = 0, !.expected = exp, !.roots = roots]
 D(exp, roots) == [cmds |-> [c |-> Base, rm |-> Stale(exp, roots)], nodes |-> Nodes, targets |-> [t |-> <<"o", "<rm>">>], paths |-> Paths]
 Exps == {<<"@/st/a", "@/st/b", "@/st/sub/c", "@/st2/d">>, <<"@/st/a", "@/stx", "st/a">>, <<"@/st/b">>, <<"@/st/sub", "@/st2/d">>, <<>>}
